@@ -254,7 +254,11 @@ func (keys KeyBuilder) Safe(str string) string {
 	str = repl.Replace(str)
 
 	// finally remove all non-word characters
-	return safeKeyRE.ReplaceAllLiteralString(str, "")
+	str = safeKeyRE.ReplaceAllLiteralString(str, "")
+
+	// removing characters can bring dots together (e.g. "./."),
+	// so make sure no ".." is left in the result
+	return strings.ReplaceAll(str, "..", "")
 }
 
 // CleanUpOwnLocks immediately cleans up all
